@@ -62,6 +62,17 @@ func c08World(k, i int64) *ref.World {
 	}
 	w.Objs["F"] = f
 	w.Objs["V"] = facts.New() // a result fact that rules only write to
+	// the "json-kinds" set: the KIND of a JSON member differs from call to call
+	switch k {
+	case 40:
+		w.JSON["J"] = map[string]interface{}{"ok": true, "n": 1.0}
+	case 41:
+		w.JSON["J"] = map[string]interface{}{"ok": "yes", "n": "one"}
+	case 42:
+		w.JSON["J"] = map[string]interface{}{"ok": false, "n": 2.0}
+	case 43:
+		w.JSON["J"] = map[string]interface{}{"ok": 1.0, "n": true}
+	}
 	return w
 }
 
@@ -112,6 +123,18 @@ var c08Sets = []c08Set{
 	}, []c08Call{
 		{"exec-k0", false, 0, 0, 10, 0}, {"exec-k1", false, 1, 0, 10, 0}, {"exec-k2", false, 2, 5, 10, 0}, {"exec-k0-limit", false, 0, 0, 1, 0}, {"fetch-k0", true, 0, 0, 0, 0},
 		{"remove:a", false, 0, 0, 0, 0},
+	}},
+	{"json-kinds", func() []*grl.Rule {
+		// conditions that are a bare member (boolean in one call, text or a number in another), and a comparison whose
+		// operand changes kind
+		return []*grl.Rule{
+			grl.R("bare", nil, "J.ok", "V.I = V.I + 1", `Retract("bare")`),
+			grl.R("neg", grl.Sal(1), "!J.ok", "V.I2 = V.I2 + 1", `Retract("neg")`),
+			grl.R("num", grl.Sal(2), "J.n == 1", "V.K = V.K + 1", `Retract("num")`),
+		}
+	}, []c08Call{
+		{"exec-bool-true", false, 40, 0, 10, 0}, {"exec-text", false, 41, 0, 10, 0}, {"exec-bool-false", false, 42, 0, 10, 0}, {"exec-number", false, 43, 0, 10, 0},
+		{"fetch-bool-true", true, 40, 0, 0, 0}, {"fetch-text", true, 41, 0, 0, 0},
 	}},
 	{"clock", func() []*grl.Rule {
 		// Now() is variable-free but not constant: every call sees the clock of ITS moment
